@@ -89,6 +89,20 @@ def stress(ctx, n, race):
     return runs, races
 
 
+def free_programs(ctx, names, reps):
+    """the same client programs, free-running (no forced schedule): these runs have
+    real ends, so calls left waiting are judged (the end of a forced schedule that the
+    code did not follow is not)"""
+    pf, out = ctx.path('programs.json'), ctx.path('free_programs.ndjson')
+    with open(pf, 'w') as f:
+        json.dump([{'name': n, 'cap': PROGRAMS[n]['cap'], 'procs': PROGRAMS[n]['procs'], 'after': PROGRAMS[n]['after']} for n in names], f)
+    r = subprocess.run([ctx.vh, 'queue-programs', '-progs', pf, '-n', str(reps), '-seed', str(ctx.seed), '-out', out],
+                       capture_output=True, text=True, timeout=3000)
+    if r.returncode != 0:
+        raise Infra('queue-programs failed: %s %s' % (r.stdout[-1000:], r.stderr[-1000:]))
+    return [json.loads(l) for l in open(out)]
+
+
 def clear_overlaps(hist):
     """does some RemoveAll overlap (in real time) an AddValue / RemoveHead in this history?"""
     ivs, pend = [], {}
@@ -105,7 +119,7 @@ def clear_overlaps(hist):
     return any(c[0] < o[1] and o[0] < c[1] for c in clears for o in others)
 
 
-def judge_common(ctx, prop, progres, stress_runs, races):
+def judge_common(ctx, prop, progres, stress_runs, races, free_runs=()):
     """prop: 'C04' judges linearizability / panics / races; 'C05' judges
     blocked goroutines and termination."""
     cov = {'client_programs': {}, 'schedules_replayed': 0, 'drift': 0, 'states': 0, 'transitions': 0}
@@ -152,6 +166,10 @@ def judge_common(ctx, prop, progres, stress_runs, races):
                               {'engine': 'queue', 'kind': 'lost', 'observed': {k: run[k] for k in run if k != 'history'},
                                'signature': {'engine': 'queue', 'kind': 'lost', 'has_clear': False}})
         items.append((key, run['cap'], run['history'], True))
+    for x in free_runs:
+        key = ('free', x['prog'], x['run']['id'])
+        meta[key] = (PROGRAMS[x['prog']], None, x['run'])
+        items.append((key, x['run']['cap'], x['run']['history'], True))
     rejected = []
     if prop == 'C05':
         # histories that did not run to completion: are the calls left behind rightly blocked?
@@ -196,6 +214,7 @@ def judge_common(ctx, prop, progres, stress_runs, races):
     cov['histories_validated'] = len(items) if prop == 'C04' else 0
     cov['histories_rejected'] = len(rejected)
     cov['stress_runs'] = len(stress_runs)
+    cov['free_program_runs'] = len(free_runs)
     cov['race_reports'] = len(races)
     return cov, items
 
@@ -215,7 +234,8 @@ def check(ctx, prop):
             r['id'] += 100000
         runs += r2
     ctx.notes.append('phase race stress %.1fs' % (time.time() - t0)); t0 = time.time()
-    cov, items = judge_common(ctx, prop, progres, runs, races)
+    free = free_programs(ctx, names, 25 if ctx.quick else 200)
+    cov, items = judge_common(ctx, prop, progres, runs, races, free)
     ctx.notes.append('phase judge %.1fs' % (time.time() - t0))
     return cov, items
 
